@@ -59,6 +59,8 @@ def classify(sc, got, exp):
         t, v = got[i][0], got[i][1]
         if i == ib and t < ex["t_b"]:
             # F was resumed while blocked on B, before B's legitimate completion
+            if sc.meta.get("abandon") == "immediate" or (v in ("cB", "(:give,cB)") and sc.meta.get("dirt", "none") != "none"):
+                return "immediate-select-left-registration", "a select that returned at once left a live pending registration: F was resumed at tick %d with %s" % (t, v)
             if v in ("cA", "(:give,cA)"):
                 return "stale-writer-resumed-by-take", "F blocked on B was resumed at tick %d with %s: a take on the abandoned channel popped F's stale pending-writer entry" % (t, v)
             if v in ("nil", "(:close,cA)") and sc.meta["fire"] in ("close", "giveclose"):
@@ -67,8 +69,6 @@ def classify(sc, got, exp):
                 return "stale-reader-consumed-item", "item given on the abandoned channel was delivered to F (blocked on B) at tick %d" % t
             if sc.meta.get("abandon") == "error" and ("deadline" in v or "timeout" in v):
                 return "timeout-of-failed-call-hit-next-wait", "A failed at once with an error, yet its timeout/deadline stayed armed: F, blocked on B, was cancelled at tick %d with %s" % (t, v)
-            if sc.meta.get("abandon") == "immediate" or (v in ("cB", "(:give,cB)") and sc.meta.get("dirt", "none") != "none"):
-                return "immediate-select-left-registration", "a select that returned at once left a live pending registration: F was resumed at tick %d with %s" % (t, v)
             if "deadline" in v or "timeout" in v:
                 return "stale-timer-fired", "F blocked on B was cancelled at tick %d by an abandoned timeout/deadline (%s)" % (t, v)
             return "resumed-by-stale-registration", "F blocked on B was resumed at tick %d with %s (not B's completion)" % (t, v)
@@ -134,3 +134,49 @@ def check_resumes(sc, res):
     if res["status"] != "ok" and not probs:
         probs.append(("end-" + res["status"], "scenario %s ended with status %s" % (sc.id, res["status"])))
     return probs
+
+
+# ---------------------------------------------------------------------------------------------------
+# correspondence with the Lean model driver jm_c07
+# ---------------------------------------------------------------------------------------------------
+
+def _sort_dumps(lines):
+    """state dumps list objects in registration order: sort the lines of each dump block"""
+    out, block = [], []
+    for l in lines:
+        if l.startswith("S ") and not re.match(r"S -?\d+ :", l):
+            block.append(l)
+            continue
+        out += sorted(block)
+        block = []
+        out.append(l)
+    return out + sorted(block)
+
+
+def canon_impl(res):
+    out = []
+    for l in res["lines"]:
+        m = re.match(r"R (-?\d+) (\S+) sid=(\d+) in=\S+ val=(.*)$", l)
+        if m:
+            out.append("R %s %s %s %s" % m.groups())
+        elif l.startswith("L "):
+            out.append(l.rstrip())
+        elif re.match(r"S -?\d+ :", l):
+            out.append(l)
+        elif l.startswith("S  chan") or l.startswith("S  timers"):
+            out.append("S " + l[3:].rstrip())
+        elif l.startswith("S  fiber"):
+            m = re.match(r"S  fiber (\S+) sid=(\d+)", l)
+            out.append("S fiber %s sid=%s" % m.groups())
+    return _sort_dumps(out)
+
+
+def parse_model(lines, outs):
+    res, cur = {}, None
+    for l, o in zip(lines, outs):
+        if l.startswith("new "):
+            cur = l[4:].strip()
+        elif l == "run" and cur is not None:
+            res[cur] = _sort_dumps([x.rstrip() for x in o.split("\t") if x])
+            cur = None
+    return res
